@@ -229,17 +229,23 @@ static void upipe_dup_input(struct upipe *upipe, struct uref *uref,
 {
     struct upipe_dup *upipe_dup = upipe_dup_from_upipe(upipe);
     struct upipe *output = upipe_dup->output;
-    struct uchain *uchain, *uchain_tmp;
-    ulist_delete_foreach (&upipe_dup->outputs, uchain, uchain_tmp) {
+    struct uchain *uchain;
+    struct upipe *previous = NULL;
+    ulist_foreach (&upipe_dup->outputs, uchain) {
+        /* the probe of an output may release it (or the next one) from
+         * inside an event: keep it until the next one has been looked up */
+        upipe_release(previous);
         struct upipe_dup_output *upipe_dup_output =
             upipe_dup_output_from_uchain(uchain);
         struct upipe *output = upipe_dup_output_to_upipe(upipe_dup_output);
+        previous = upipe_use(output);
         if (ulist_is_last(&upipe_dup->outputs, uchain) && !output) {
             upipe_dup_output_output(output, uref, upump_p);
             uref = NULL;
         } else {
             struct uref *new_uref = uref_dup(uref);
             if (unlikely(new_uref == NULL)) {
+                upipe_release(previous);
                 uref_free(uref);
                 upipe_throw_fatal(upipe, UBASE_ERR_ALLOC);
                 return;
@@ -247,6 +253,7 @@ static void upipe_dup_input(struct upipe *upipe, struct uref *uref,
             upipe_dup_output_output(output, new_uref, upump_p);
         }
     }
+    upipe_release(previous);
 
     if (output)
         upipe_dup_output(upipe, uref, upump_p);
